@@ -1477,12 +1477,12 @@ def _c15_bootline_ok():
 @fact("proxy_master_ok", "bool", "false")
 def _proxy_master_ok():
     """ProxyIO: read(n) is a channel-file read on the io channel (an error of that channel -- the forwarder failed -- is the end of
-    the connection: EOFError), write(data) sends one item, every control operation
+    the connection, EOFError, once a byte has been read; before that it is the forwarder's start-up error and is shown), write(data) sends one item, every control operation
     is one request on the control channel answered once"""
     init = _src(find("gateway_io.py", "ProxyIO.__init__"))
     ok = "self.controlchan = proxy_channel.gateway.newchannel()" in init and "proxy_channel.send(self.controlchan)" in init
     ok = ok and "self.iochan = proxy_channel" in init and "self.iochan_file = self.iochan.makefile('r')" in init
-    ok = ok and [_src(n) for n in _body_nodoc(find("gateway_io.py", "ProxyIO.read"))] == ["try:\n    return self.iochan_file.read(nbytes)\nexcept self.iochan.RemoteError as exc:\n    raise EOFError('proxy io failed: %s' % (exc,)) from exc"]
+    ok = ok and [_src(n) for n in _body_nodoc(find("gateway_io.py", "ProxyIO.read"))] == ["try:\n    data = self.iochan_file.read(nbytes)\nexcept self.iochan.RemoteError as exc:\n    if not self._connected:\n        raise\n    raise EOFError('proxy io failed: %s' % (exc,)) from exc", "if data:\n    self._connected = True", "return data"]
     ok = ok and [_src(n) for n in _body_nodoc(find("gateway_io.py", "ProxyIO.write"))] == ["self.iochan.send(data)"]
     ok = ok and [_src(n) for n in _body_nodoc(find("gateway_io.py", "ProxyIO._controll"))] == ["self.controlchan.send(event)", "return self.controlchan.receive()"]
     for meth, ev in (("close_write", "RIO_CLOSE_WRITE"), ("kill", "RIO_KILL"), ("wait", "RIO_WAIT"), ("remoteaddress", "RIO_REMOTEADDRESS")):
